@@ -492,7 +492,14 @@ pub fn run(ctx: &Ctx, rep: &mut Report) {
         }
         let mut accepted: Vec<(bool, [u8; 32], Vec<MMessage>, ProofPlan)> = Vec::new();
         for class in order {
-            // the history goes on between submissions: now and then the signers rotate
+            // the history goes on between submissions: time passes, now and then the signers rotate
+            if rng.chance(1, 9) {
+                let d = rng.ledger_jump();
+                if w.u.advance(d) {
+                    rep.step(format!("ledger advances by {}", d));
+                    rep.count("advance-ledger");
+                }
+            }
             if rng.chance(1, 7) {
                 let cand = gen_wellformed_set(&mut rng, &mut w.ring, max_signers);
                 let ok = {
@@ -784,7 +791,10 @@ pub fn run(ctx: &Ctx, rep: &mut Report) {
             }
         }
     }
-    rep.notes.insert("required".into(), json!(CLASSES));
+    let mut req: Vec<String> = CLASSES.iter().map(|c| c.to_string()).collect();
+    req.push("advance-ledger".into());
+    req.push("mid-history-rotation".into());
+    rep.notes.insert("required".into(), json!(req));
     rep.notes.insert("rule".into(), json!("per universe: gateway with retention in {0,1,2,5}, 1-3 initial sets, 0-6 honest rotations, optionally a second gateway with another domain separator and the same sets; 34 submissions (approve_messages or standalone validate_proof) interleaved with further honest rotations, every one of 28 classes at least once per universe (honest all/subset/exact-threshold/old-retained; one-short; signatures over another domain/command/batch/set; wrong key; bit flip; extra invalid signature; every slot independently unsigned/valid/invalid; unsigned or insufficient valid prefix followed by garbage signatures; declared set with dropped/added/duplicated/swapped signer, changed weight/threshold/nonce, kept or re-signed; never installed; beyond retention; cross-gateway replay; empty batch; byte-identical resubmission of a submission accepted earlier in the same history, possibly after its signer set left the retention window; an already approved batch with a proof by a never-installed set, one signer short, or unsigned); distinct = (class, entry point, expectation, outcome, signer count, retention, epoch gap)"));
     rep.notes.insert(
         "classes_seen".into(),
